@@ -26,6 +26,11 @@ func init() {
 		es, err := changelog.Parse(strings.NewReader(arg(a, 0)))
 		return showEntries(es, err)
 	}
+	// clparse2 first second: Parse(first) - whatever it gives - and then Parse(second) in the same process, at once
+	ops["clparse2"] = func(a []string) string {
+		changelog.Parse(strings.NewReader(arg(a, 0)))
+		return showEntries(changelog.Parse(strings.NewReader(arg(a, 1))))
+	}
 	// clvariants text: ParseFile on a real file, and ParseOne / ParseFileOne for the first entry, against Parse
 	ops["clvariants"] = func(a []string) string {
 		text := arg(a, 0)
